@@ -301,6 +301,11 @@ func matchType(_ Context, doc bsonkit.Doc, name, path string, v interface{}) err
 	}
 
 	return matchUnwind(doc, path, true, false, func(field interface{}) error {
+		// a missing field has no type (it only inspects as null)
+		if field == bsonkit.Missing {
+			return ErrNotMatched
+		}
+
 		class, typ := bsonkit.Inspect(field)
 		if matchNumberClass && class == bsonkit.Number {
 			return nil
